@@ -268,7 +268,32 @@ def run(ctx, R, tier):
     R.check(ok, "C16-R5", "register|weak-stores-weakref", "with weak=True the registry holds a weakref.ref, otherwise the object", reg.loc(st0),
             "the weak flag no longer selects a weak reference: `%s`" % unparse(v))
     fin = [c for c, _ in ctx.cg.calls_of(reg) if dotted(c.func) == "weakref.finalize"]
-    ok = len(fin) == 1 and len(fin[0].args) >= 3 and unparse(fin[0].args[1]) == "self.unregister" and unparse(fin[0].args[2]) == idp
+    ok = len(fin) == 1 and len(fin[0].args) >= 3 and isinstance(fin[0].args[1], ast.Attribute) and unparse(fin[0].args[1].value) == reg.self_name and unparse(fin[0].args[2]) == idp
+    # the finalizer outlives the registration it was made for (unregister, forced re-registration): it removes the entry only if the entry is still THIS object's
+    # reference - `self.unregister` itself as the callback removes whatever object was registered under the id in the meantime
+    own_only, cb = False, None
+    if ok:
+        cbname = fin[0].args[1].attr
+        cb = reg.cls.methods.get(cbname) or next((m for k_, m in reg.cls.methods.items() if k_.endswith(cbname)), None) if reg.cls is not None else None
+        if cb is not None and cb.name != "unregister":
+            ccfg = ctx.cfg(cb)
+            unregs = [n for c in walk_no_nested(cb.node) if isinstance(c, ast.Call) and isinstance(c.func, ast.Attribute) and c.func.attr in ("unregister", "pop")
+                      for n in ctx.node_of(cb, c)] + [n for st, t, k in stores_in(cb.node) if k == "del" and isinstance(t, ast.Subscript) and registry_expr(t.value) for n in ccfg.nodes_for(st)]
+
+            def still_mine(atom, pol):
+                if isinstance(atom, ast.Compare) and len(atom.ops) == 1 and isinstance(atom.ops[0], (ast.Is, ast.IsNot)):
+                    sides = [atom.left, atom.comparators[0]]
+                    raw = [x for x in sides if (isinstance(x, ast.Subscript) and registry_expr(x.value)) or
+                           (isinstance(x, ast.Call) and isinstance(x.func, ast.Attribute) and x.func.attr == "get" and registry_expr(x.func.value))]
+                    prm = [x for x in sides if isinstance(x, ast.Name) and x.id in cb.params]
+                    return bool(raw) and bool(prm) and (pol is True) == isinstance(atom.ops[0], ast.Is)
+                return False
+            own_only = bool(unregs) and all(ccfg.guarded(n, lambda e: edge_has_fact(e, still_mine)) for n in unregs) and \
+                len(fin[0].args) >= 4 and any((isinstance(a, ast.Subscript) and registry_expr(a.value)) or isinstance(a, ast.Name) for a in fin[0].args[3:])
+    R.check(own_only, "C16-R5", "register|weak-finalizer-removes-only-its-own-entry", "the finalizer of a weak registration unregisters the id only while the entry is still that object's reference",
+            (cb.loc() if cb is not None else reg.loc(fin[0])) if fin else reg.loc(),
+            "the finalizer is `%s`: when the id was given to another object in the meantime (unregister + register, or register(.., force=True)), the collection of the FIRST object "
+            "removes the second one's registration - calls to the id get 'unknown object' although that object is registered" % (unparse(fin[0].args[1]) if fin and len(fin[0].args) > 1 else "missing"))
 
     def weak_true(atom, pol):
         return pol is True and isinstance(atom, ast.Name) and atom.id == "weak"
@@ -303,6 +328,8 @@ def run(ctx, R, tier):
              "registered object is never collected and its id stays registered and callable after the application dropped it" % unparse(keeps, 90)) if keeps is not None else "")
 
     # ---------------------------------------------------------------- R6
+    finalize_callbacks = {c.args[1].attr for g in p.functions.values() if g.module.name == "Pyro5.server" for c in walk_no_nested(g.node)
+                          if isinstance(c, ast.Call) and dotted(c.func) == "weakref.finalize" and len(c.args) >= 2 and isinstance(c.args[1], ast.Attribute)}
     n_reads = 0
     for g in p.functions.values():
         if g.module.name not in ("Pyro5.server", "Pyro5.nameserver", "Pyro5.client", "Pyro5.core", "Pyro5.serializers"):
@@ -331,6 +358,14 @@ def run(ctx, R, tier):
                 if unwrapped:
                     R.ok("C16-R6", key, "assigned and unwrapped with isinstance(.., weakref.ref)", g.loc(read))
                     continue
+            # the entry AS an entry: handed to a finalizer to be recognised later, and compared (identity) with such a remembered entry inside a finalizer callback
+            if isinstance(parent, ast.Call) and dotted(parent.func) == "weakref.finalize" and read in parent.args[2:]:
+                R.ok("C16-R6", key, "the raw entry is handed to the finalizer so that it can recognise its own registration", g.loc(read))
+                continue
+            if isinstance(parent, ast.Compare) and len(parent.ops) == 1 and isinstance(parent.ops[0], (ast.Is, ast.IsNot)) and g.name in finalize_callbacks and \
+                    any(isinstance(x, ast.Name) and x.id in g.params for x in [parent.left, parent.comparators[0]] if x is not read):
+                R.ok("C16-R6", key, "a finalizer callback compares the current entry with the entry it was made for (both raw)", g.loc(read))
+                continue
             R.fail("C16-R6", key, "registry value is unwrapped before use", g.loc(read),
                    "`%s` uses the raw registry value: for a weakly registered object that is a weakref.ref, so identity tests fail and attribute "
                    "access reaches the reference instead of the object" % unparse(getattr(read, "_parent", read), 80))
